@@ -452,5 +452,15 @@ def r6_test_object_per_operation(chk: Check) -> None:
             chk.undecided("C13.R6", fn, construct, f"`{unparse(target, 60)}`: origin not recognised", fn.loc(c))
 
 
+def r7_process_global_caches(chk: Check) -> None:
+    from . import shared
+
+    P = chk.project
+    mods = ("generation/coverage.py", BUILDER, EXAMPLES, "generation/__init__.py")
+    fns = [f for m in mods for f in P.module(m).functions.values() if not isinstance(f.node, ast.Lambda)]
+    shared.memo_key_rule(chk, "C13.R7", fns, {},
+                         "MEMO-KEY(process-global caches in the value generators): a module-level cache is filled in the order the worker threads reach it; if its key lacks something the cached value is computed from (a strategy built from the whole schema cached under the format name), what an operation receives depends on which operation got there first - the same with one worker, different with two", floor=0)
+
+
 def rules(tier: str) -> list:  # type: ignore[type-arg]
-    return [r1_entries, r2_entropy, r3_unordered, r4_seed_flow, r5_no_shared_mutation, r6_test_object_per_operation]
+    return [r1_entries, r2_entropy, r3_unordered, r4_seed_flow, r5_no_shared_mutation, r6_test_object_per_operation, r7_process_global_caches]
